@@ -38,7 +38,8 @@ def main(argv):
         worst = 0
         here = os.path.join(os.path.dirname(os.path.abspath(__file__)), "rules")
         for fn in sorted(os.listdir(here)):
-            if re.match(r"c\d+\.py$", fn):
+            if re.match(r"c\d+\.py$", fn) and (not os.environ.get("TLSVERIF_ONLY")
+                                                or fn[:-3].upper() in os.environ["TLSVERIF_ONLY"].split(",")):
                 worst = max(worst, run(fn[:-3].upper(), tier))
         return worst
     return run(argv[0].upper(), tier)
